@@ -386,8 +386,22 @@ def run_units(unit):
         e2 = dict(base)
         e2[pname] = tok
         oB, stored2 = run(e2, True)
-        return outs_of(oA), outs_of(oB), stored
+        from . import c06
+        want = c06.pint_convert(v, u, prm0.PreferredUnits.value)       # independent conversion of what the user wrote
+        return outs_of(oA), outs_of(oB), (stored, want)
     zv = {'v': z3.Real('v')}
+
+    def concrete_stored(inp):
+        from . import c06
+        v = float(inp['v'])
+        e1 = dict(base)
+        e1[pname] = f'{v!r} {u}'
+        try:
+            oA, stored = run(e1, False)
+        except Exception as e:
+            return False, {'no result': repr(e)[:160]}
+        want = float(c06.pint_convert(v, u, prm0.PreferredUnits.value))
+        return (not core.eq(float(stored), want, rel=1e-9)), {'input': e1[pname], 'value the reader stored': float(stored), 'the quantity written, in the working unit': want}
 
     def concrete(inp):
         v = float(inp['v'])
@@ -410,10 +424,13 @@ def run_units(unit):
         k += 1
         if pr.aborted or pr.error is not None or pr.value is None:
             continue
-        a, b, stored = pr.value
+        a, b, (stored, want) = pr.value
         c = pr.ctx
         if k <= 3:
             harness.reachable(log, c, 2000)
+        from . import c06
+        harness.discharge(log, c, f'{pname} written in {u}: the value the assessment works with is the quantity written (exact conversion to {prm0.PreferredUnits.value})',
+                          c06.approx(core.lift(stored), core.lift(want)), zv, concrete_stored, timeout_ms=20000)
         for n in a:
             if core.lift(a[n]) is None or core.lift(b[n]) is None:
                 continue
